@@ -483,12 +483,13 @@ func flateZeros(n int64) []byte {
 // maxLen >= 0).  Expected: the limit error, and never more than c*limit + slack bytes allocated.
 func rowBombs(r *vh.Run) {
 	type variant struct{ colors, bpc int }
-	variants := []variant{{1, 8}, {3, 8}, {1, 16}, {4, 1}}
+	allVariants := []variant{{1, 8}, {3, 8}, {1, 16}, {4, 1}}
 	for _, lim := range []int64{64 << 10, 1 << 20} {
+		variants := allVariants
 		preds := []int{2, 10, 11, 12, 13, 14, 15}
 		if !r.Thorough() {
 			preds = []int{2, 12, 15, 10 + r.Rand.Intn(5)}
-			variants = []variant{{1, 8}, variants[1+r.Rand.Intn(3)]}
+			variants = []variant{{1, 8}, allVariants[1+r.Rand.Intn(3)]}
 		}
 		for _, pred := range preds {
 			for vi, v := range variants {
